@@ -167,6 +167,8 @@ class CountModel(e2.Model):
             yield ("unreg", i) if i in live else ("reg", i)
         for c in range(len(self.sigma)):
             yield ("call", c)
+        if live and (not hist or hist[-1][0] != "badreg"):
+            yield ("badreg", 0)  # refused registration: the method set does not change, warm combinations stay warm
 
     def do(self, w, op):
         p = w.prog
@@ -178,6 +180,13 @@ class CountModel(e2.Model):
             p.ov.unregister(p.fns[op[1]])
             w.warm.clear()
             return ("ok",)
+        if op[0] == "badreg":
+            try:
+                p.ov.register(_unsupported)
+            except TypeError:
+                return ("refused",)
+            w.warm.clear()
+            return ("accepted",)
         c = op[1]
         was_warm = c in w.warm
         before = sum(COUNTS.values())
@@ -218,6 +227,10 @@ class CountModel(e2.Model):
                 yield ("recomputed-on-warm-call", {"consulted": dict(out[2]), "call": self.sigma[op[1]]})
             if out[0][0] != "ret":
                 yield ("warm-call-failed", {"out": list(out[0][:2])})
+
+
+def _unsupported(x, **kwargs):
+    return "unsupported"
 
 
 def programs(tier):
